@@ -436,32 +436,56 @@ pub fn gen_mean(rng: &mut Rng, tier: &Tier) -> Vec<Case> {
     cases
 }
 
+/// run one operation of a generator's private instance; `None` if the code under test panicked
+pub fn try_exec(it: &mut Interp, line: &str, trace: &mut Vec<String>) -> Option<String> {
+    trace.push(line.to_string());
+    it.exec(line).ok()
+}
+
 fn deque_inject_cases(rng: &mut Rng, tier: &Tier, kind: &str, cases: &mut Vec<Case>) {
     // run the real filter from Default, read its guts, shift all timestamps so that `time` sits at
     // usize::MAX - j, re-inject through FromGuts and continue across the rebase
     for n in 1..=6usize {
         for j in 0..=(n + 2) {
             for _ in 0..tier.n(3, 40) {
+                // the generator reads the real filter's state; should the filter misbehave here (panic, nonsense
+                // state), the operations so far become a case of their own: the run reports what went wrong
                 let mut it = Interp::default();
-                it.exec(&format!("new 1 {} N={}", kind, n)).unwrap();
+                let mut trace: Vec<String> = Vec::new();
                 let pre = int_seq_in(rng, 0, 2 * n as i64 + 1);
-                for x in &pre {
-                    it.exec(&format!("f 1 {}", x)).unwrap();
-                }
-                let time: usize = it.exec("guts 1 time").unwrap().parse().unwrap();
-                let taps = it.exec("guts 1 taps").unwrap();
+                let mut lines = vec![format!("new 1 {} N={}", kind, n)];
+                lines.extend(pre.iter().map(|x| format!("f 1 {}", x)));
+                let mut ok = lines.iter().all(|l| try_exec(&mut it, l, &mut trace).is_some());
+                let mut time = 0usize;
+                let mut taps2: Vec<String> = vec![];
                 let target = usize::MAX - j;
-                let shift = target - time;
-                let taps2: Vec<String> = if taps == "-" {
-                    vec![]
-                } else {
-                    taps.split_whitespace()
-                        .map(|t| {
-                            let (v, ts) = t.split_once(':').unwrap();
-                            format!("{}:{}", v, ts.parse::<usize>().unwrap() + shift)
-                        })
-                        .collect()
-                };
+                if ok {
+                    let parsed = (|| -> Option<(usize, Vec<String>)> {
+                        let time: usize = try_exec(&mut it, "guts 1 time", &mut trace)?.parse().ok()?;
+                        let taps = try_exec(&mut it, "guts 1 taps", &mut trace)?;
+                        let shift = target.checked_sub(time)?;
+                        let mut v = vec![];
+                        if taps != "-" {
+                            for t in taps.split_whitespace() {
+                                let (val, ts) = t.split_once(':')?;
+                                v.push(format!("{}:{}", val, ts.parse::<usize>().ok()?.checked_add(shift)?));
+                            }
+                        }
+                        Some((time, v))
+                    })();
+                    match parsed {
+                        Some((t, v)) => {
+                            time = t;
+                            taps2 = v;
+                        }
+                        None => ok = false,
+                    }
+                }
+                let _ = time;
+                if !ok {
+                    cases.push(trace);
+                    continue;
+                }
                 let hist: Vec<String> = pre.iter().map(|x| x.to_string()).collect();
                 let mut c = vec![format!(
                     "inject 1 {} N={} time={} taps={} hist={}",
@@ -773,14 +797,20 @@ pub fn gen_classify9(rng: &mut Rng, tier: &Tier) -> Vec<Case> {
     // all order patterns: every sequence over {0,1,2} of length 6
     for s in all_seqs(3, if tier.thorough { 7 } else { 5 }) {
         let mut it = Interp::default();
-        it.exec("new 9 slopes out=0,1,2").unwrap();
+        let mut trace = Vec::new();
+        let _ = try_exec(&mut it, "new 9 slopes out=0,1,2", &mut trace);
         let mut c = vec![
             "new 1 slopes out=21,22,23".to_string(),
             "new 2 peaks out=21,22,23".to_string(),
             "new 3 peaks_slopes out=21,22,23".to_string(),
         ];
         for x in &s {
-            let code = it.exec(&format!("f 9 {}", x)).unwrap();
+            // the slope code fed to the slope-driven instance is what the real slope filter says; if that filter
+            // panics or answers outside {0,1,2}, the value-driven instances still run (and report it)
+            let code = match try_exec(&mut it, &format!("f 9 {}", x), &mut trace) {
+                Some(code) if ["0", "1", "2"].contains(&code.as_str()) => code,
+                _ => "1".to_string(),
+            };
             c.push(format!("f 1 {}", x));
             c.push(format!("f 2 {}", x));
             c.push(format!("f 3 {}", code));
@@ -833,6 +863,25 @@ pub fn gen_reset(rng: &mut Rng, tier: &Tier) -> Vec<Case> {
             }
             cases.push(c);
         }
+        // a reset after EVERY prefix of one history: instance 2 is a copy reset at that point, instance 3 is fresh;
+        // both get the next two samples of the history
+        for _ in 0..tier.n(8, 80) {
+            let k = random_kind(rng, kind);
+            let mut c = vec![format!("new 1 {}", k.params)];
+            let xs: Vec<String> = (0..rng.range(3, 2 * k.width as i64 + 7)).map(|_| random_input(rng, &k)).collect();
+            for i in 0..xs.len() {
+                c.push(format!("f 1 {}", xs[i]));
+                c.push("clone 1 2".into());
+                c.push("reset 2".into());
+                c.push("fresh 1 3".into());
+                for x in xs.iter().skip(i + 1).take(2) {
+                    c.push(format!("f 2 {}", x));
+                    c.push(format!("f 3 {}", x));
+                    c.push("same 2 3 C12.reset-eq-fresh".into());
+                }
+            }
+            cases.push(c);
+        }
     }
     cases
 }
@@ -877,6 +926,28 @@ pub fn gen_copy(rng: &mut Rng, tier: &Tier) -> Vec<Case> {
                     c.push("acc 1 cached".into());
                     c.push("acc 3 cached".into());
                 }
+            }
+            cases.push(c);
+        }
+        // every split point of one history: before each sample a clone and a guts copy are taken, all three get the
+        // sample (and one more), the copies are then discarded - a copy taken in ANY reachable state must agree
+        for _ in 0..tier.n(8, 80) {
+            let k = random_kind(rng, kind);
+            let mut c = vec![format!("new 1 {}", k.params)];
+            for _ in 0..rng.range(2, 2 * k.width as i64 + 6) {
+                c.push("clone 1 2".into());
+                c.push("gutsrt 1 3".into());
+                let x = random_input(rng, &k);
+                let y = random_input(rng, &k);
+                c.push(format!("f 2 {}", x));
+                c.push(format!("f 3 {}", x));
+                c.push(format!("f 1 {}", x));
+                c.push("same 1 2 C20.copy-continues".into());
+                c.push("same 1 3 C20.copy-continues".into());
+                // one step further on the copies only: the original must be unaffected by what its copies are fed
+                c.push(format!("f 2 {}", y));
+                c.push(format!("f 3 {}", y));
+                c.push("same 2 3 C20.copy-continues".into());
             }
             cases.push(c);
         }
